@@ -4,6 +4,7 @@
 EXTENDS K8sShards, K8sProps, TLC, Json, IOUtils, CSV, SequencesExt
 
 CONSTANTS MaxRep, MaxTpl, MaxPods, OutFile
+BigLists == {11, 12, 23}
 
 VARIABLES c, out
 vars == <<c, out>>
@@ -13,8 +14,8 @@ AllPvcs(ntpl) == {[tpl |-> t, ord |-> o] : t \in 1..ntpl, o \in Ords}
 \* scale cases: every old/new count, template count, flag; claims complete, or with one claim missing,
 \* or with a foreign claim (a template name this set does not have) that must never be touched
 ScaleCases ==
-  UNION {{[kind |-> "scale", replicas |-> r, n |-> n, ntpl |-> t, flag |-> f, pvcs |-> SetToSeq(p)] :
-            r \in (0..MaxRep) \cup {-1}, n \in 0..MaxRep, f \in BOOLEAN,
+  UNION {{[kind |-> "scale", replicas |-> r, n |-> n, ntpl |-> t, flag |-> f, updfail |-> uf, pvcs |-> SetToSeq(p)] :
+            r \in (0..MaxRep) \cup {-1}, n \in 0..MaxRep, f \in BOOLEAN, uf \in BOOLEAN,
             p \in {AllPvcs(t), AllPvcs(t) \ {[tpl |-> 1, ord |-> MaxRep - 1]},
                    AllPvcs(t) \cup {[tpl |-> 9, ord |-> 0], [tpl |-> 9, ord |-> MaxRep - 1]}}}
          : t \in 0..MaxTpl}
@@ -24,6 +25,10 @@ ListCases ==
   UNION {{[kind |-> "list", pods |-> [k \in DOMAIN perm |-> [ord |-> perm[k], ip |-> ips[perm[k]]]]] :
             perm \in Perms(S), ips \in [S -> {0, 7, 8}]}
          : S \in {0..(m - 1) : m \in 0..MaxPods} \cup {{0, 2}, {1, 2}}}
+  \* long lists (two-digit ordinals) in a few characteristic orders
+  \cup UNION {{[kind |-> "list", pods |-> [k \in 1..m |-> [ord |-> f[k], ip |-> 1 + (f[k] % 5)]]] :
+                 f \in {[k \in 1..m |-> k - 1], [k \in 1..m |-> m - k], [k \in 1..m |-> (k * 7) % m]}}
+              : m \in BigLists}
 Stat == {[replicas |-> 2, updated |-> 2, ready |-> 2], [replicas |-> 2, updated |-> 1, ready |-> 2],
          [replicas |-> 2, updated |-> 2, ready |-> 1], [replicas |-> 3, updated |-> 0, ready |-> 0],
          [replicas |-> 0, updated |-> 0, ready |-> 0]}
@@ -32,7 +37,7 @@ ReplicaCases ==
 
 Predict(cs) ==
   CASE cs.kind = "list" -> [shards |-> ListShards(cs.pods)]
-    [] cs.kind = "scale" -> LET r == ScaleResult(cs.replicas, cs.ntpl, Rng(cs.pvcs), cs.flag, cs.n)
+    [] cs.kind = "scale" -> LET r == ScaleResult(cs.replicas, cs.ntpl, Rng(cs.pvcs), cs.flag, cs.n, cs.updfail)
                             IN [replicas |-> r.replicas, pvcs |-> SetToSeq(r.pvcs), writes |-> r.updates]
     [] cs.kind = "replicas" -> [managers |-> SelectSeq(<<"a", "b">>, LAMBDA nm : \E s \in Rng(cs.sets) : s.name = nm /\ Coordinated(s))]
 
